@@ -15,7 +15,7 @@ ERR = "ERR"
 
 def language_of(template_name: str) -> str:
     n = template_name.rsplit("/", 1)[-1]
-    if n.endswith(".py.jinja") or n in ("helpers.jinja",):
+    if n.endswith(".py.jinja"):
         return "python"
     if n.endswith(".toml.jinja"):
         return "toml"
